@@ -147,3 +147,13 @@ Definition idiff_sound (w : Z) (c : code) (entry : Z) : Prop :=
   fp s' = fp s0 /\ m (ap s' - 3) = rc + 1 /\
   if vb <=? va then m (ap s' - 2) = 0 /\ m (ap s' - 1) = va - vb
   else m (ap s' - 2) = 1 /\ m (ap s' - 1) = va - vb + 2 ^ w.
+
+(* bounded_int_constrain<T, B> for T = [lo, hi] (also NonZero<T>): (RangeCheck, T) -> (RangeCheck,
+   Result<[lo, B-1], [B, hi]>): Ok(v) = (0, v) iff v < B, Err(v) = (1, v) otherwise; one range check *)
+Definition constrain_sound (lo hi b : Z) (c : code) (entry : Z) : Prop :=
+  forall (m : mem) (pb : Z) (s0 s' : st) (v : Z),
+  mem_canonical m -> pc s0 = pb + entry -> reaches m pb c 0 s0 s' ->
+  let rc := m (fp s0 - 4) in
+  lo <= v <= hi -> m (fp s0 - 3) = v mod P -> rc + 1 < P -> rc_ok m rc (rc + 1) ->
+  fp s' = fp s0 /\ m (ap s' - 3) = rc + 1 /\
+  m (ap s' - 2) = (if v <? b then 0 else 1) /\ m (ap s' - 1) = v mod P.
